@@ -81,6 +81,8 @@ type c15Case struct {
 	BodyRep string      `json:"body"`             // the body itself, or "sha256:<hex>:<length>" for a large one
 	BareQ   bool        `json:"bare_q,omitempty"` // the target ends in a '?' without a query
 	TLS     bool        `json:"tls,omitempty"`    // the client talks TLS to heimdall
+	Keep    bool        `json:"keep,omitempty"`   // use (and leave behind) a kept-alive connection of the same peer
+	Reused  bool        `json:"reused,omitempty"` // the request went over a connection an earlier case left behind
 	Chunked bool        `json:"chunked"`
 	Setting string      `json:"setting"` // off | on | no_decode
 	Up      int         `json:"up"`      // 0 plain upstream, 1 TLS upstream
@@ -216,6 +218,14 @@ type c15Sys struct {
 	close   []func()
 
 	localhostOK bool // "localhost" resolves to 127.0.0.1
+
+	keep map[string]*c15Kept // kept-alive client connections by (service, peer, tls)
+}
+
+type c15Kept struct {
+	tcp  net.Conn
+	conn net.Conn
+	br   *bufio.Reader
 }
 
 // c15ServeRaw is the upstream test server: it reads what heimdall's transport
@@ -336,7 +346,7 @@ func c15HandleConn(conn net.Conn, which int) {
 func c15Start(t *testing.T) *c15Sys {
 	t.Helper()
 
-	s := &c15Sys{}
+	s := &c15Sys{keep: map[string]*c15Kept{}}
 
 	// certificate for the TLS upstream: the one net/http/httptest ships
 	certSrv := httptest.NewUnstartedServer(http.NotFoundHandler())
@@ -515,34 +525,64 @@ func (s *c15Sys) run(c *c15Case) c15Out {
 	c15.cur, c15.rule, c15.hits = c, rul, nil
 	c15.mu.Unlock()
 
-	addr := s.addr4[c.Srv]
+	key := fmt.Sprintf("%d|%s|%v", c.Srv, c.Peer, c.TLS)
 
-	switch {
-	case c.TLS:
-		addr = s.addrTLS[c.Srv]
-	case strings.Contains(c.Peer, ":"):
-		addr = s.addr6[c.Srv]
+	var kc *c15Kept
+
+	if c.Keep && s.keep[key] != nil {
+		kc = s.keep[key]
+		c.Reused = true
 	}
 
-	d := net.Dialer{LocalAddr: &net.TCPAddr{IP: net.ParseIP(c.Peer)}, Timeout: 5 * time.Second}
+	delete(s.keep, key)
 
-	tcp, err := d.DialContext(context.Background(), "tcp", addr)
-	if err != nil {
-		return c15Out{Kind: "error", Err: "dial: " + err.Error()}
-	}
-	defer tcp.Close()
+	if kc == nil {
+		c.Reused = false
 
-	tcp.SetDeadline(time.Now().Add(30 * time.Second)) //nolint:errcheck
+		addr := s.addr4[c.Srv]
 
-	conn := tcp
-	if c.TLS {
-		tc := tls.Client(tcp, &tls.Config{InsecureSkipVerify: true, NextProtos: []string{"http/1.1"}}) //nolint:gosec
-		if err := tc.Handshake(); err != nil {
-			return c15Out{Kind: "error", Err: "tls: " + err.Error()}
+		switch {
+		case c.TLS:
+			addr = s.addrTLS[c.Srv]
+		case strings.Contains(c.Peer, ":"):
+			addr = s.addr6[c.Srv]
 		}
 
-		conn = tc
+		d := net.Dialer{LocalAddr: &net.TCPAddr{IP: net.ParseIP(c.Peer)}, Timeout: 5 * time.Second}
+
+		tcp, err := d.DialContext(context.Background(), "tcp", addr)
+		if err != nil {
+			return c15Out{Kind: "error", Err: "dial: " + err.Error()}
+		}
+
+		kc = &c15Kept{tcp: tcp, conn: tcp}
+
+		if c.TLS {
+			tc := tls.Client(tcp, &tls.Config{InsecureSkipVerify: true, NextProtos: []string{"http/1.1"}}) //nolint:gosec
+			if err := tc.Handshake(); err != nil {
+				tcp.Close()
+
+				return c15Out{Kind: "error", Err: "tls: " + err.Error()}
+			}
+
+			kc.conn = tc
+		}
+
+		kc.br = bufio.NewReader(kc.conn)
 	}
+
+	kc.tcp.SetDeadline(time.Now().Add(30 * time.Second)) //nolint:errcheck
+
+	conn := kc.conn
+	keepIt := false
+
+	defer func() {
+		if keepIt {
+			s.keep[key] = kc
+		} else {
+			kc.tcp.Close()
+		}
+	}()
 
 	var sb strings.Builder
 
@@ -584,8 +624,15 @@ func (s *c15Sys) run(c *c15Case) c15Out {
 		werr <- err
 	}()
 
-	resp, err := http.ReadResponse(bufio.NewReader(conn), &http.Request{Method: c.Method})
+	resp, err := http.ReadResponse(kc.br, &http.Request{Method: c.Method})
 	if err != nil {
+		if c.Reused {
+			// the server had closed the idle connection: once more on a fresh one
+			c.Keep = false
+
+			return s.run(c)
+		}
+
 		if e := <-werr; e != nil {
 			return c15Out{Kind: "error", Err: "write: " + e.Error() + "; read: " + err.Error()}
 		}
@@ -595,6 +642,16 @@ func (s *c15Sys) run(c *c15Case) c15Out {
 
 	io.Copy(io.Discard, resp.Body) //nolint:errcheck
 	resp.Body.Close()
+
+	if e := <-werr; e == nil && c.Keep && !resp.Close && resp.StatusCode == http.StatusOK {
+		keepIt = true
+
+		for _, h := range c.Headers {
+			if c15CanonKey(h[0]) == "Connection" {
+				keepIt = false
+			}
+		}
+	}
 
 	c15.mu.Lock()
 	hits := c15.hits
@@ -1026,6 +1083,8 @@ func (s *c15Sys) gen(r *vf.Rand) c15Case {
 		c.TLS = true
 	}
 
+	c.Keep = r.Chance(50)
+
 	// the upstream that speaks the protocol the request will most likely be forwarded with
 	scheme := "http"
 	if c.TLS {
@@ -1116,6 +1175,14 @@ func c15Tags(c *c15Case, o c15Out) ([]string, bool) {
 
 	if c.Trusted {
 		tags = append(tags, "peer:trusted")
+	}
+
+	if c.Reused {
+		tags = append(tags, "conn:reused")
+	}
+
+	if c.TLS {
+		tags = append(tags, "conn:tls")
 	}
 
 	if strings.Contains(c.Peer, ":") {
@@ -1400,6 +1467,10 @@ func TestVerifC15(t *testing.T) {
 	n := vf.N(300)
 	idx := 0
 
+	if !s.hasV6() {
+		t.Log("NOTE: no IPv6 loopback in this environment: no case uses the peer ::1")
+	}
+
 	emit := func(stream string, c c15Case) {
 		if vf.Want(idx) {
 			o := s.run(&c)
@@ -1414,6 +1485,7 @@ func TestVerifC15(t *testing.T) {
 
 			tags, nontrivial := c15Tags(&c, o)
 			key := c
+			key.Reused = false
 			key.UpHost = strings.Split(c.UpHost, ":")[0] // the port of the upstream differs from run to run
 			w.Put(vf.Obs{I: idx, Stream: stream, In: c, Out: o, Coq: c15Coq(&c, o), Nontrivial: nontrivial,
 				Key: vf.KeyOf(key), Tags: tags})
